@@ -23,4 +23,5 @@ a = a.replace('''        let mut v: Vec<u64> = Vec::new();
         let it = ConIterOfVec::new(v);''', '''        let it = ConIterOfArray::new([0u64, 1, 2]);''')
 a = a.replace('bound="len <= 3', 'bound="len == 3')
 a = a.replace("ConIterOfVec", "ConIterOfArray")
+a = a.replace("kind=vec len={len}", "kind=array")
 open(os.path.join(d, 'kani/array.rs'), 'w').write(a)
